@@ -3,7 +3,7 @@
 From Coq Require Import ZArith List Bool Zdiv.
 From Bignums Require Import BigZ.
 From GmVerif Require Import Ec.Num Ec.CurveSpec Ec.Z256 Ec.Z256Proofs Ec.Mont Ec.MontProofs
-  Ec.Jacobian Ec.JacobianProofs Ec.Booth Ec.BoothProofs Ec.ScalarMul Ec.ScalarMulProofs.
+  Ec.Jacobian Ec.JacobianProofs Ec.Booth Ec.BoothProofs Ec.ScalarMul Ec.ScalarMulProofs Ec.ScalarMulGenProofs.
 Import ListNotations.
 Local Open Scope Z_scope.
 
@@ -42,16 +42,25 @@ Theorem C13_modp_sub_spec : forall a b, z256_ok a -> z256_ok b -> val a < vP -> 
 Proof. exact modp_sub_spec. Qed.
 Print Assumptions C13_modp_sub_spec.
 
-(* neg is exact for 0 < a < p; for a = 0 the code returns p itself (refuted below) *)
-Theorem C13_modp_neg_spec : forall a, z256_ok a -> 0 < val a < vP ->
+Theorem C13_modp_neg_spec : forall a, z256_ok a -> val a < vP ->
   z256_ok (z256_modp_neg a) /\ val (z256_modp_neg a) = (- val a) mod vP.
 Proof. exact modp_neg_spec. Qed.
 Print Assumptions C13_modp_neg_spec.
 
-Theorem C13_modp_neg_zero_refuted : forall a, z256_ok SM2_Z256_P -> z256_ok a -> val a = 0 ->
-  val (z256_modm_neg SM2_Z256_P a) = val SM2_Z256_P.
-Proof. exact (modm_neg_zero SM2_Z256_P). Qed.
-Print Assumptions C13_modp_neg_zero_refuted.
+(* before the repair the function returned p for a = 0 (witness about the old formula) *)
+Theorem C13_modp_neg_old_zero_refuted : forall a, z256_ok SM2_Z256_P -> z256_ok a -> val a = 0 ->
+  val (z256_modm_neg_old SM2_Z256_P a) = val SM2_Z256_P.
+Proof. exact (modm_neg_old_zero SM2_Z256_P). Qed.
+Print Assumptions C13_modp_neg_old_zero_refuted.
+
+(* the constant-time zero and equality tests *)
+Theorem C13_is_zero_spec : forall a, z256_ok a -> z256_is_zero a = if val a =? 0 then 1 else 0.
+Proof. exact is_zero_spec. Qed.
+Print Assumptions C13_is_zero_spec.
+
+Theorem C13_equ_spec : forall a b, z256_ok a -> z256_ok b -> z256_equ a b = if val a =? val b then 1 else 0.
+Proof. exact equ_spec. Qed.
+Print Assumptions C13_equ_spec.
 
 Theorem C13_modp_dbl_spec : forall a, z256_ok a -> val a < vP ->
   z256_ok (z256_modp_dbl a) /\ val (z256_modp_dbl a) = (2 * val a) mod vP.
@@ -73,7 +82,7 @@ Theorem C13_modn_sub_spec : forall a b, z256_ok a -> z256_ok b -> val a < vN -> 
 Proof. exact modn_sub_spec. Qed.
 Print Assumptions C13_modn_sub_spec.
 
-Theorem C13_modn_neg_spec : forall a, z256_ok a -> 0 < val a < vN ->
+Theorem C13_modn_neg_spec : forall a, z256_ok a -> val a < vN ->
   z256_ok (z256_modn_neg a) /\ val (z256_modn_neg a) = (- val a) mod vN.
 Proof. exact modn_neg_spec. Qed.
 Print Assumptions C13_modn_neg_spec.
@@ -201,6 +210,21 @@ Theorem C13_booth_sum_7 : forall k, 0 <= k < 2^256 -> booth_sum 7 0 (booth_digit
 Proof. exact booth_sum_7. Qed.
 Print Assumptions C13_booth_sum_7.
 
+(* ... for the digits the limb code sm2_z256_get_booth extracts *)
+Theorem C13_get_booth_limbs : forall k w i, 0 <= k < 2^256 -> 0 < w -> w + 1 <= 64 -> 0 <= i ->
+  w * i - 1 < 256 ->
+  z256_get_booth (limbs 4 k) w i = booth_v k w i.
+Proof. exact get_booth_limbs. Qed.
+Print Assumptions C13_get_booth_limbs.
+
+Theorem C13_booth_code_sum_5 : forall k, 0 <= k < 2^256 -> booth_sum 5 0 (booth_digits k 5) = k.
+Proof. exact booth_code_sum_5. Qed.
+Print Assumptions C13_booth_code_sum_5.
+
+Theorem C13_booth_code_sum_7 : forall k, 0 <= k < 2^256 -> booth_sum 7 0 (booth_digits k 7) = k.
+Proof. exact booth_code_sum_7. Qed.
+Print Assumptions C13_booth_code_sum_7.
+
 Theorem C13_booth_range_5 : forall k i, 0 <= k -> 0 <= i -> -16 <= booth_v k 5 i <= 16.
 Proof. exact booth_range_5. Qed.
 Print Assumptions C13_booth_range_5.
@@ -244,11 +268,13 @@ Theorem C13_point_add_formula : forall X1 Y1 Z1 X2 Y2 Z2,
 Proof. exact (add_formula c_p half_p Z FpZ okp decp FpZ_laws). Qed.
 Print Assumptions C13_point_add_formula.
 
+(* the straight-line formulas of the mixed addition; sm2_z256_point_add_affine uses them
+   exactly when H <> 0 or an operand is infinity (C13_point_add_affine_control below) *)
 Theorem C13_point_add_affine_formula : forall X1 Y1 Z1 x2 y2,
   okp X1 -> okp Y1 -> okp Z1 -> okp x2 -> okp y2 ->
   f_eqb FpZ Z1 (f_zero FpZ) = false ->
   f_eqb FpZ x2 (f_zero FpZ) && f_eqb FpZ y2 (f_zero FpZ) = false ->
-  let '(X3, Y3, Z3) := point_add_affine Z FpZ (X1, Y1, Z1) (x2, y2) in
+  let '(X3, Y3, Z3) := point_add_affine_old Z FpZ (X1, Y1, Z1) (x2, y2) in
   let U2 := decp x2 * (decp Z1 * decp Z1) in let S2 := decp y2 * (decp Z1 * decp Z1 * decp Z1) in
   let H := U2 - decp X1 in let R := S2 - decp Y1 in
   okp X3 /\ okp Y3 /\ okp Z3 /\
@@ -353,25 +379,26 @@ Theorem C13_point_add_affine_infinity_right : forall F (fo : fops F) X1 Y1 Z1 x2
 Proof. exact add_affine_inf_r. Qed.
 Print Assumptions C13_point_add_affine_infinity_right.
 
-(* ---- the defect: the mixed addition has no doubling branch ---- *)
-Theorem C13_add_affine_equal_inputs_refuted :
-  point_add_affine Z FpZ (G_mont_x, G_mont_y, c_negp) (G_mont_x, G_mont_y) = (0, 0, 0) /\
-  point_dbl Z FpZ (G_mont_x, G_mont_y, c_negp) <> (0, 0, 0) /\
-  point_add_affine_fixed Z FpZ (G_mont_x, G_mont_y, c_negp) (G_mont_x, G_mont_y)
-    = point_dbl Z FpZ (G_mont_x, G_mont_y, c_negp).
-Proof. exact add_affine_equal_inputs_refuted. Qed.
-Print Assumptions C13_add_affine_equal_inputs_refuted.
-
-Theorem C13_add_affine_fixed_spec : forall F (fo : fops F) X1 Y1 Z1 x2 y2,
+(* ---- control flow of sm2_z256_point_add_affine (with the equal-x branch) ---- *)
+Theorem C13_point_add_affine_control : forall F (fo : fops F) X1 Y1 Z1 x2 y2,
   let H := f_sub fo (f_mul fo x2 (f_sqr fo Z1)) X1 in
   let R := f_sub fo (f_mul fo (f_mul fo (f_sqr fo Z1) Z1) y2) Y1 in
   let exceptional := f_eqb fo H (f_zero fo) && negb (f_eqb fo Z1 (f_zero fo)) &&
                      negb (f_eqb fo x2 (f_zero fo) && f_eqb fo y2 (f_zero fo)) in
-  point_add_affine_fixed F fo (X1, Y1, Z1) (x2, y2) =
+  point_add_affine F fo (X1, Y1, Z1) (x2, y2) =
   if exceptional then (if f_eqb fo R (f_zero fo) then point_dbl F fo (X1, Y1, Z1) else point_zero F fo)
-  else point_add_affine F fo (X1, Y1, Z1) (x2, y2).
-Proof. exact add_affine_fixed_spec. Qed.
-Print Assumptions C13_add_affine_fixed_spec.
+  else point_add_affine_old F fo (X1, Y1, Z1) (x2, y2).
+Proof. exact add_affine_spec. Qed.
+Print Assumptions C13_point_add_affine_control.
+
+(* witness about the old formula: without the equal-x branch P + P gave (0,0,0) *)
+Theorem C13_add_affine_old_equal_inputs_refuted :
+  point_add_affine_old Z FpZ (G_mont_x, G_mont_y, c_negp) (G_mont_x, G_mont_y) = (0, 0, 0) /\
+  point_dbl Z FpZ (G_mont_x, G_mont_y, c_negp) <> (0, 0, 0) /\
+  point_add_affine Z FpZ (G_mont_x, G_mont_y, c_negp) (G_mont_x, G_mont_y)
+    = point_dbl Z FpZ (G_mont_x, G_mont_y, c_negp).
+Proof. exact add_affine_old_equal_inputs_refuted. Qed.
+Print Assumptions C13_add_affine_old_equal_inputs_refuted.
 
 (* ---- scalar multiplication by the generator: the table, and the refutation at k = n - 70 ---- *)
 Theorem C13_table_is_spec_recurrence :
@@ -386,8 +413,36 @@ Theorem C13_table_shape :
 Proof. exact table_shape. Qed.
 Print Assumptions C13_table_shape.
 
-Theorem C13_mul_generator_correct_refuted :
+(* sm2_z256_point_mul_generator computes [k]G for EVERY 256-bit k, provided the point-level
+   operations mean what they should (named premises; the additivity of smul is where the group
+   law enters).  The proof covers Booth recoding as extracted by the limb code, table indexing,
+   sign handling and the "R is still infinity" flag. *)
+Theorem C13_mul_generator_correct_partial :
+  forall (F : Type) (fo : fops F) (addaff : jpoint F -> apoint F -> jpoint F)
+         (M : Type) (madd : M -> M -> M) (mneg : M -> M) (smul : Z -> M)
+         (okR : jpoint F -> Prop) (oke : apoint F -> Prop) (den : jpoint F -> M) (dena : apoint F -> M),
+  (forall a b, smul (a + b) = madd (smul a) (smul b)) ->
+  (forall a, smul (- a) = mneg (smul a)) ->
+  (forall R e, okR R -> oke e -> okR (addaff R e) /\ den (addaff R e) = madd (den R) (dena e)) ->
+  (forall e, oke e -> oke (fst e, f_neg fo (snd e)) /\ dena (fst e, f_neg fo (snd e)) = mneg (dena e)) ->
+  (forall e, oke e -> okR (point_copy_affine F fo e) /\ den (point_copy_affine F fo e) = dena e) ->
+  den (point_infinity F fo) = smul 0 ->
+  forall tab : list (list (apoint F)),
+  length tab = 37%nat ->
+  (forall i, (i < 37)%nat -> row_ok F fo M smul oke dena (nth i tab []) (2^(7 * Z.of_nat i))) ->
+  forall k, 0 <= k < 2^256 ->
+  exists R, point_mul_generator F fo addaff tab k = Some R /\ den R = smul k.
+Proof. exact mul_generator_correct_partial. Qed.
+Print Assumptions C13_mul_generator_correct_partial.
+
+(* in particular the model never indexes the table out of bounds *)
+Theorem C13_mul_generator_total : forall k, 0 <= k < 2^256 -> exists R, mulgen k = Some R.
+Proof. exact mul_generator_total. Qed.
+Print Assumptions C13_mul_generator_total.
+
+(* witness about the old mixed addition: k = n - 70 gave infinity *)
+Theorem C13_mul_generator_old_refuted :
   exists k, 0 <= k < 2^256 /\
-    option_map decodeZ (mulgen_cur k) <> Some (point_toZ BigOps (sm2_mulG BigOps k)).
-Proof. exact mul_generator_correct_refuted. Qed.
-Print Assumptions C13_mul_generator_correct_refuted.
+    option_map decodeZ (mulgen_old k) <> Some (point_toZ BigOps (sm2_mulG BigOps k)).
+Proof. exact mul_generator_old_refuted. Qed.
+Print Assumptions C13_mul_generator_old_refuted.
